@@ -114,6 +114,13 @@ class C14(Prop):
                                                                   '  last %s *b*', '/*\nlast\n*/']).replace('%s', w))
                     parts[k + 1] = rng.choice(['first %s *b* & {m1}', '``\nfirst %s *b* {m1}\n``', '..\nfirst %s *b* {m1}\n..',
                                                '> first %s *b*']).replace('%s', w) + '\n\n' + parts[k + 1]
+            if rng.random() < 0.1 and (m == 0 or m & 8):
+                # a chain of line macros about as deep as the nesting limit in one part, a line macro in the next
+                depth = rng.choice([9, 10, 10, 11])
+                chain = ["{c%d} = '\\{c%d}'" % (i, i + 1) for i in range(1, depth)] + ["{c%d} = '# Title %d'" % (depth, depth)]
+                k = rng.randrange(len(parts) - 1)
+                parts[k] += '\n\n' + '\n'.join(chain) + '\n\n{c1}'
+                parts[k + 1] = '{c%d}\n\n' % depth + parts[k + 1]
             yield {'parts': parts, 'safeMode': mode, 'htmlReplacement': rng.choice([None, '[R]', '<i>gone</i>'])}
 
     def execute(self, case, ctx, res):
@@ -419,7 +426,9 @@ class C12(Prop):
 
     TARGETS = [('para text', 'p'), ('# Header', 'h1'), ('```\ncode\n```', 'pre'), ('""\nquote\n""', 'blockquote'), ('- item\n- two', 'ul'),
                ('  indented', 'pre'), ('. one', 'ol'), ('>quoted par', 'blockquote'), ('<image:http://a.b/i.png|alt>', 'img'),
-               ('<div>raw</div>', 'div'), ('<section>\nraw\n</section>', 'section'), ('<div>raw</div>', 'div')]
+               ('<div>raw</div>', 'div'), ('<section>\nraw\n</section>', 'section'), ('<div>raw</div>', 'div'),
+               # HTML blocks that have no start tag to carry the attributes: they consume them all the same
+               ('<!-- comment -->', None), ('</section>', None), ('<!DOCTYPE html>', None)]
 
     def cases(self, ctx):
         rng = ctx.rng
@@ -589,6 +598,11 @@ class C12(Prop):
                 res.violation('+skip did not skip exactly the next block', case, {'with': out_with, 'without': out_without})
             return
         attr = case['attr']
+        if case['tag'] is None:
+            if attr and attr.strip() and attr.strip() in out_with:
+                res.violation('attributes consumed by a tag-less HTML block appear in the output', case, out_with)
+                return
+            attr = ''
         if case['target'].startswith('<') and not case['target'].startswith('<image') and mode & 3 in (1, 2):
             # a dropped / replaced HTML block consumes the attributes: nothing of them may appear anywhere
             if attr and attr in out_with:
@@ -754,6 +768,22 @@ class C11(Prop):
                 else:
                     # the whole line is deleted: nothing is left of the header / item
                     pass
+            if rng.random() < 0.3:
+                # the same invocation before and after a redefinition: the value is looked up when the invocation is rendered
+                name = rng.choice([n for n in names if n in table] or ['m1'])
+                args = [rng.choice(PLAIN) for _ in range(rng.randint(0, 2))]
+                inv = '{%s|%s}' % (name, '|'.join(args)) if args or rng.random() < 0.5 else '{%s}' % name
+                def val_of():
+                    return ref_params(table[name], args) if '|' in inv else table[name]
+                if name in table and '\n' not in table[name]:
+                    w1 = plain(rng, 1, 2)
+                    lines_a.append('%s %s end' % (w1, inv)); lines_b.append('%s %s end' % (w1, val_of()))
+                    newv = rng.choice(['NEW $1 v2', 'second', '$2 swapped $1', ''])
+                    d = "{%s} = '%s'" % (name, newv)
+                    lines_a.append(d); lines_b.append(d)
+                    table[name] = newv
+                    lines_a.append('%s %s end' % (w1, inv)); lines_b.append('%s %s end' % (w1, val_of()))
+                    kinds.add('redefined-between')
             mode = rng.choice([0, 0, 8, 9, 12])
             yield {'a': '\n\n'.join(lines_a), 'b': '\n\n'.join(lines_b), 'safeMode': mode, 'kinds': sorted(kinds), 'literal': literal}
 
